@@ -38,6 +38,12 @@ SIG = {
     "one_pin_array": "edif.writer.one_pin_array_port",
     "bitlike_scalar": "edif.convention.scalar_net_named_like_bus_bit",
     "dup_base_bit": "edif.reader.duplicate_base_bit_shifts_bus",
+    "scalar_like_bus": "edif.reader.scalar_net_shorted_to_bus",
+    "shared_stem": "edif.reader.bus_identity_by_identifier_stem",
+    "odd_char": "edif.reader.string_token_charset",
+    "backslash_bus": "edif.reader.backslash_bus_cable",
+    "old_name": "edif.writer.oldname_raw_rename",
+    "odd_prop_value": "edif.writer.non_integer_property_value",
 }
 # a failure is attributed to an open finding only if the input carries that finding's trigger AND the
 # failure is of the kind the defect produces; anything else keeps its generic signature
@@ -51,12 +57,26 @@ EXPECT = {
     "one_pin_array": ["roundtrip.view03.libraries.ports"],
     "bitlike_scalar": ["roundtrip.view03.libraries.nets", "roundtrip.view03.libraries.#"],
     "dup_base_bit": ["parse.view05.libs.cells.cables", "parse.file_view05.libs.cells.cables"],
+    "scalar_like_bus": ["parse.view05.libs.cells.cables", "parse.raises.value"],
+    "shared_stem": ["parse.view05.libs.cells.cables", "parse.raises.value"],
+    "odd_char": ["reparse.raises.runtime", "history.reparse.raises.runtime"],
+    "backslash_bus": ["roundtrip.view03.libraries.nets", "roundtrip.view03.libraries.#"],
+    "old_name": ["reparse.raises.runtime", "history.reparse.raises.runtime"],
+    "odd_prop_value": ["reparse.raises.value", "reparse.raises.runtime", "history.reparse.raises.value", "history.reparse.raises.runtime"],
 }
 
 
 def classify(trigger, sig, detail):
     if trigger and any(sig.startswith(e) for e in EXPECT[trigger]):
         return SIG[trigger], sig + ": " + detail
+    return sig, detail
+
+
+def classify_any(trigs, sig, detail):
+    for t in trigs:
+        s2, d2 = classify(t, sig, detail)
+        if s2 != sig:
+            return s2, d2
     return sig, detail
 
 
@@ -68,11 +88,40 @@ def derived_triggers03(c):
         out.append("undefined_dir")
     if any(p["width"] == 1 and not p["scalar"] for p in ports):
         out.append("one_pin_array")
+
+    def odd(sx):
+        return isinstance(sx, str) and any(not (32 <= ord(ch) <= 126 or ch == "\t") for ch in sx)
+    elems = [c] + list(c["libraries"]) + [D for L in c["libraries"] for D in L["definitions"]]
+    for D in [D for L in c["libraries"] for D in L["definitions"]]:
+        elems += D["ports"] + D["cables"] + D["instances"]
+    if c.get("top"):
+        elems.append(c["top"])
+    strings = [e.get("name") for e in elems]
+    for e in elems:
+        for pr in (e.get("data", {}).get("EDIF.properties") or []):
+            if isinstance(pr, dict):
+                strings += [pr.get("value"), pr.get("original_identifier")]
+    strings += [c.get("data", {}).get("EDIF.status.written.program"), c.get("data", {}).get("EDIF.status.written.program.version")]
+    if any(odd(x) for x in strings):
+        out.append("odd_char")
+    if any("oldName" in e.get("data", {}) for e in elems):
+        out.append("old_name")
+    for D in [D for L in c["libraries"] for D in L["definitions"]]:
+        for k in D["instances"]:
+            for pr in (k["data"].get("EDIF.properties") or []):
+                if isinstance(pr, dict) and not isinstance(pr.get("value"), (str, bool, int)):
+                    if "odd_prop_value" not in out:
+                        out.append("odd_prop_value")
+        for cb in D["cables"]:
+            if (len(cb["wires"]) > 1 or not cb["scalar"]) and str(cb["name"]).startswith("\\"):
+                if "backslash_bus" not in out:
+                    out.append("backslash_bus")
     return out
 
 
-TRIG05 = ["design_case", "after_design", "amp_bus", "glob", "bracket_tail", "dup_base_bit"]
-TRIG03 = ["undefined_dir", "one_pin_array", "bitlike_scalar", "amp_bus", "glob", "bracket_tail"]
+TRIG05 = ["design_case", "after_design", "amp_bus", "glob", "bracket_tail", "dup_base_bit", "scalar_like_bus", "shared_stem"]
+TRIG03 = ["undefined_dir", "one_pin_array", "bitlike_scalar", "amp_bus", "glob", "bracket_tail", "backslash_bus",
+          "old_name", "odd_prop_value", "odd_char"]
 
 
 # ------------------------------------------------------------------------------------------------
@@ -165,6 +214,17 @@ def check_name_consistent(c):
     return bad
 
 
+def unjval(v):
+    """inverse of canon.jval on what recipes use: {"float": "1.5"} -> 1.5"""
+    if isinstance(v, dict):
+        if set(v) == {"float"}:
+            return float(v["float"])
+        return {k: unjval(x) for k, x in v.items()}
+    if isinstance(v, list):
+        return [unjval(x) for x in v]
+    return v
+
+
 def build_from_canon(c):
     """build a netlist through the public API from a canon-format recipe (DEFAULT naming policy)"""
     sdn = _sdn()
@@ -174,19 +234,19 @@ def build_from_canon(c):
         nl.name = c["name"]
     for k, v in c.get("data", {}).items():
         if k != ".NAME":
-            nl[k] = copy.deepcopy(v)
+            nl[k] = unjval(copy.deepcopy(v))
     defs = []
     for L in c["libraries"]:
         lib = nl.create_library(name=L["name"])
         for k, v in L.get("data", {}).items():
             if k != ".NAME":
-                lib[k] = copy.deepcopy(v)
+                lib[k] = unjval(copy.deepcopy(v))
         row = []
         for D in L["definitions"]:
             d = lib.create_definition(name=D["name"])
             for k, v in D.get("data", {}).items():
                 if k != ".NAME":
-                    d[k] = copy.deepcopy(v)
+                    d[k] = unjval(copy.deepcopy(v))
             for P in D["ports"]:
                 p = d.create_port(name=P["name"])
                 p.direction = {"IN": sdn.IN, "OUT": sdn.OUT, "INOUT": sdn.INOUT,
@@ -198,7 +258,7 @@ def build_from_canon(c):
                 p.is_downto = P.get("downto", True)
                 for k, v in P.get("data", {}).items():
                     if k != ".NAME":
-                        p[k] = copy.deepcopy(v)
+                        p[k] = unjval(copy.deepcopy(v))
             row.append(d)
         defs.append(row)
     for li, L in enumerate(c["libraries"]):
@@ -210,7 +270,7 @@ def build_from_canon(c):
                 k = d.create_child(name=K["name"], reference=(defs[r[0]][r[1]] if r is not None else None))
                 for kk, v in K.get("data", {}).items():
                     if kk != ".NAME":
-                        k[kk] = copy.deepcopy(v)
+                        k[kk] = unjval(copy.deepcopy(v))
                 kids.append(k)
             for C in D["cables"]:
                 cb = d.create_cable(name=C["name"])
@@ -221,7 +281,7 @@ def build_from_canon(c):
                 cb.is_downto = C.get("downto", True)
                 for kk, v in C.get("data", {}).items():
                     if kk != ".NAME":
-                        cb[kk] = copy.deepcopy(v)
+                        cb[kk] = unjval(copy.deepcopy(v))
                 for w, pins in zip(cb.wires, C["wires"]):
                     for x in pins:
                         if x[0] == "p":
@@ -237,7 +297,7 @@ def build_from_canon(c):
             t.reference = defs[r[0]][r[1]]
         for kk, v in T.get("data", {}).items():
             if kk != ".NAME":
-                t[kk] = copy.deepcopy(v)
+                t[kk] = unjval(copy.deepcopy(v))
         nl.top_instance = t
     return nl
 
@@ -431,7 +491,7 @@ def c03_eval(work, drv, nl, trigger=None, second_pass=True):
     res = {"corr": [], "spec": None, "tags": []}
 
     c0 = canon.cnetlist(nl)
-    trigs = [trigger] if trigger else derived_triggers03(c0)
+    trigs = ([trigger] if trigger else []) + [t for t in derived_triggers03(c0) if t != trigger]
     res["triggers"] = trigs
 
     def spec(sig, detail):
@@ -538,7 +598,8 @@ def c03_run_recipe(sr, work, drv, inp, shrink=True, deadline=None, shrunk=None):
         sr.dist("c03.history")
         sr.dist("c03.history.steps=%d" % min(len(inp["history"]), 8))
     if herr is not None:
-        res = {"corr": [], "spec": ("history." + herr.split(":")[0], herr), "tags": [], "triggers": []}
+        trigs0 = ([trig] if trig else []) + derived_triggers03(inp["net"])
+        res = {"corr": [], "spec": classify_any(trigs0, "history." + herr.split(":")[0], herr), "tags": [], "triggers": trigs0}
     else:
         res = c03_eval(work, drv, nl, trig)
     f = G.features03(inp["net"])
@@ -571,7 +632,7 @@ def c03_run_recipe(sr, work, drv, inp, shrink=True, deadline=None, shrunk=None):
                 if hist is not None:
                     n2, he = apply_history(work, n2, hist, strict=False)
                     if he is not None:
-                        return ("history." + he.split(":")[0], he)
+                        return classify_any(([trig] if trig else []) + derived_triggers03(e), "history." + he.split(":")[0], he)
                 r2 = c03_eval(work, drv, n2, trig, second_pass=("parse_compose_parse" in res["spec"][1] or "_of_parsed" in res["spec"][1]))
                 return r2["spec"]
 
@@ -620,11 +681,12 @@ def c03_run_parsed(sr, work, drv, inp, text=None, path=None):
         sr.spec_failure(res["spec"][0], inp, res["spec"][1])
 
 
-WRITER_TRIGS = {"undefined_dir", "one_pin_array"}
+WRITER_TRIGS = {"undefined_dir", "one_pin_array", "old_name", "odd_prop_value"}
 # bitlike_scalar: a scalar net named like bit i of a bus of the same cell is, in the written text, a SECOND
 # declaration of that bit; when i is the bus's base index the implementation hits the duplicate-base-bit
 # defect while the model (repaired) merges: excused under the pinned bitlike finding
-READER_TRIGS = {"amp_bus", "glob", "bracket_tail", "design_case", "after_design", "dup_base_bit", "bitlike_scalar"}
+READER_TRIGS = {"amp_bus", "glob", "bracket_tail", "design_case", "after_design", "dup_base_bit", "bitlike_scalar",
+                "odd_char", "old_name", "odd_prop_value", "scalar_like_bus", "shared_stem"}
 
 
 def corr_sig(res, what=""):
@@ -748,7 +810,7 @@ def edit_name(rng, siblings, bus=False, scalar_net=False):
             s = s.swapcase() if rng.random() < 0.5 else s + rng.choice(["_", "$", "_sdn_1_", "[0]"])
         else:
             s = G.gen_name03(rng, set(names), bus=bus, scalar_net=scalar_net)
-        if not s or s in names or s[0] == "\\" or '"' in s or not G.name_ok03(s, bus, scalar_net):
+        if not s or s in names or (bus and s[0] == "\\") or '"' in s or not G.name_ok03(s, bus, scalar_net):
             continue
         return s
     return G.gen_name03(rng, set(names), bus=bus, scalar_net=scalar_net)
